@@ -54,7 +54,7 @@ register("C18", ["c18", "hazards"],
          ["validator signature unforgeability", "tokio watch lock serialises updates"],
          TRUSTED)
 
-register("C02", ["c02", "c04", "hazards"],
+register("C02", ["c02", "c02x", "c04", "hazards"],
          "Static decision tables and ingredient terms of the re-proposal rule: get_implied_block is enumerated over (justification kind, high vote, high QC, number order) and each outcome site is classified by its return terms; TimeoutQC::high_vote is checked for what it tallies (key = the voted BlockHeader, quantity = Signers::weight, only entries with a vote), the qualifying comparison (>= subquorum_threshold) and uniqueness (exactly one); high_qc is compared with max-by-view over the entries' high QCs; the replica's payload table (vote only for the implied hash, or for a fresh payload after verify_payload succeeded) and the proposer's table are enumerated; certificate verification obligations are imported from C04. The combinatorial safety argument (2f < n-3f) rests on C07 and the hand lemma; multi-view histories are not explored.",
          ["the C07 lemma", "certificates inside accepted messages were verified (C04 rules run with this property)"],
          TRUSTED)
